@@ -546,13 +546,7 @@ Section Fronts.
 
   (* bi be bf bno: --index-url / --extra-index-url / --find-links / --no-index given on the
      command line itself *)
-  Theorem front_ends_agree : forall bi be bf bno fuel path (fl : list fline),
-    forallb fline_ok fl = true ->
-    fs path = Some (render (map fitem fl)) -> 0 < fuel ->
-    (forall t, In (req_meaning t) (reqs_of (map fitem fl)) -> valid t = true) ->
-    exists rc rb,
-      cli_front_full bi be bf bno (req_iter valid fs fuel path) = FOk rc /\
-      bazel_front (req_iter valid fs fuel path) (render (map fitem fl)) = FOk rb /\
+  Definition agree_concl (bi be bf : list string) (bno : bool) (fl : list fline) (rc rb : cli_repos) : Prop :=
       r_index rb = vals DIndex fl /\ r_extra rb = vals DExtra fl /\ r_find rb = vals DFind fl /\
       (forall u, In u (r_index rc) <-> In u bi \/ In u (map norm_index_url (r_index rb))) /\
       (forall u, In u (r_extra rc) <-> In u be \/ In u (map norm_index_url (r_extra rb))) /\
@@ -561,12 +555,15 @@ Section Fronts.
       (NoDup bi -> exists tl, r_index rc = (bi ++ tl)%list) /\
       (NoDup be -> exists tl, r_extra rc = (be ++ tl)%list) /\
       (NoDup bf -> exists tl, r_find rc = (bf ++ tl)%list).
+
+  (* once the option tokens of the directive lines have been collected *)
+  Lemma fronts_of_dirs bi be bf bno texts (fl : list fline) : forallb fline_ok fl = true ->
+    exists rc rb,
+      cli_front_full bi be bf bno (Ok (texts, flat_map dtoks fl)) = FOk rc /\
+      bazel_front (Ok (texts, flat_map dtoks fl)) (render (map fitem fl)) = FOk rb /\
+      agree_concl bi be bf bno fl rc rb.
   Proof.
-    intros bi be bf bno fuel path fl Hok Hfs Hfuel Hvalid.
-    destruct (flines_flat _ Hok) as (Hd & Hh & Ho).
-    destruct (reads_like_pip valid fs fuel path (map fitem fl) (flines_conv _ Hok) Hfs (Hh fs _) ltac:(lia) Hvalid)
-      as (texts & Er & _).
-    rewrite Er, Ho. unfold bazel_front. rewrite scan_dirs by exact Hok.
+    intros Hok. unfold agree_concl, bazel_front. rewrite scan_dirs by exact Hok.
     destruct (cli_parse_dirs _ Hok) as (n & En & Ni & Ne & Nf & Ned & Nno).
     unfold cli_front_full. destruct (flat_map dtoks fl) as [|tk tks] eqn:Et.
     - (* no directive at all *)
@@ -589,6 +586,78 @@ Section Fronts.
       + apply dedup_append_prefix.
       + apply dedup_append_prefix.
       + apply dedup_append_prefix.
+  Qed.
+
+  (* bi be bf bno: --index-url / --extra-index-url / --find-links / --no-index given on the
+     command line itself *)
+  Theorem front_ends_agree : forall bi be bf bno fuel path (fl : list fline),
+    forallb fline_ok fl = true ->
+    fs path = Some (render (map fitem fl)) -> 0 < fuel ->
+    (forall t, In (req_meaning t) (reqs_of (map fitem fl)) -> valid t = true) ->
+    exists rc rb,
+      cli_front_full bi be bf bno (req_iter valid fs fuel path) = FOk rc /\
+      bazel_front (req_iter valid fs fuel path) (render (map fitem fl)) = FOk rb /\
+      r_index rb = vals DIndex fl /\ r_extra rb = vals DExtra fl /\ r_find rb = vals DFind fl /\
+      (forall u, In u (r_index rc) <-> In u bi \/ In u (map norm_index_url (r_index rb))) /\
+      (forall u, In u (r_extra rc) <-> In u be \/ In u (map norm_index_url (r_extra rb))) /\
+      (forall u, In u (r_find rc) <-> In u bf \/ In u (r_find rb)) /\
+      r_noindex rc = bno /\ r_noindex rb = false /\
+      (NoDup bi -> exists tl, r_index rc = (bi ++ tl)%list) /\
+      (NoDup be -> exists tl, r_extra rc = (be ++ tl)%list) /\
+      (NoDup bf -> exists tl, r_find rc = (bf ++ tl)%list).
+  Proof.
+    intros bi be bf bno fuel path fl Hok Hfs Hfuel Hvalid.
+    destruct (flines_flat _ Hok) as (Hd & Hh & Ho).
+    destruct (reads_like_pip valid fs fuel path (map fitem fl) (flines_conv _ Hok) Hfs (Hh fs _) ltac:(lia) Hvalid)
+      as (texts & Er & _).
+    rewrite Er, Ho. apply fronts_of_dirs. exact Hok.
+  Qed.
+
+  (* ---- several input files, given in any order *)
+  Lemma render_concat (fls : list (list fline)) :
+    List.concat (map (fun fl => render (map fitem fl)) fls) = render (map fitem (List.concat fls)).
+  Proof.
+    induction fls as [|fl fls IH]; [reflexivity|]. cbn [map List.concat]. rewrite IH.
+    unfold render. rewrite map_app, flat_map_app. reflexivity.
+  Qed.
+  Lemma dtoks_concat (fls : list (list fline)) :
+    List.concat (map (flat_map dtoks) fls) = flat_map dtoks (List.concat fls).
+  Proof.
+    induction fls as [|fl fls IH]; [reflexivity|]. cbn [map List.concat]. rewrite IH, flat_map_app. reflexivity.
+  Qed.
+
+  Definition file_ok (p : string) (fl : list fline) : Prop :=
+    forallb fline_ok fl = true /\ fs p = Some (render (map fitem fl)) /\
+    (forall t, In (req_meaning t) (reqs_of (map fitem fl)) -> valid t = true).
+
+  Lemma read_files_dirs fuel : 0 < fuel -> forall paths fls, Forall2 file_ok paths fls -> forall acc,
+    exists texts, combine_res (map (req_iter valid fs fuel) paths) acc =
+                  Ok (texts, (snd acc ++ flat_map dtoks (List.concat fls))%list).
+  Proof.
+    intros Hfuel paths fls H. induction H as [|p fl paths fls (Hok & Hfs & Hv) _ IH]; intros acc.
+    - cbn. rewrite app_nil_r. destruct acc; eauto.
+    - cbn [map combine_res List.concat].
+      destruct (flines_flat _ Hok) as (Hd & Hh & Ho).
+      destruct (reads_like_pip valid fs fuel p (map fitem fl) (flines_conv _ Hok) Hfs (Hh fs _) ltac:(lia) Hv) as (texts & -> & _).
+      rewrite Ho. destruct (IH ((fst acc ++ texts)%list, (snd acc ++ flat_map dtoks fl)%list)) as (T & ->).
+      cbn [snd]. rewrite flat_map_app, app_assoc. eauto.
+  Qed.
+  Lemma forallb_concat_ok paths fls : Forall2 file_ok paths fls -> forallb fline_ok (List.concat fls) = true.
+  Proof.
+    intros H. induction H as [|p fl paths fls (Hok & _) _ IH]; [reflexivity|].
+    cbn [List.concat]. rewrite forallb_app, Hok, IH. reflexivity.
+  Qed.
+
+  Theorem front_ends_agree_files : forall bi be bf bno fuel (paths : list string) (fls : list (list fline)),
+    Forall2 file_ok paths fls -> 0 < fuel ->
+    exists rc rb,
+      cli_front_files bi be bf bno (read_files valid fs fuel paths) = FOk rc /\
+      bazel_front_files (read_files valid fs fuel paths) (map (fun fl => render (map fitem fl)) fls) = FOk rb /\
+      agree_concl bi be bf bno (List.concat fls) rc rb.
+  Proof.
+    intros bi be bf bno fuel paths fls H Hfuel. unfold read_files, cli_front_files, bazel_front_files.
+    destruct (read_files_dirs fuel Hfuel paths fls H ([], [])) as (texts & ->). cbn [snd app].
+    rewrite render_concat. apply fronts_of_dirs. eapply forallb_concat_ok; exact H.
   Qed.
 End Fronts.
 
